@@ -9,8 +9,9 @@ DMAX = (2 ** 64 - 1) * 10 ** 9 + 999999999      # Duration::MAX in nanoseconds
 
 def tmo(rng):
     """idle timeout in ticks (ns): small ones around which the advances are drawn, and 'never expire'
-    style ones (2^63, u64::MAX ns, Duration::MAX) - arithmetic on instants must not overflow or panic"""
-    return rng.weighted([(12, rng.range(1, 20)), (1, 2 ** 63), (1, 2 ** 64 - 1), (1, DMAX)])
+    style ones (2^63, u64::MAX ns, Duration::MAX) - arithmetic on instants must not overflow or panic -
+    and the zero timeout (Some(ZERO) is a timeout like any other: anything idle for 1 ns is dropped)"""
+    return rng.weighted([(12, rng.range(1, 20)), (2, 0), (1, 2 ** 63), (1, 2 ** 64 - 1), (1, DMAX)])
 
 
 def tmo_tok(t):
